@@ -170,20 +170,54 @@ def binop (op : BinOp) (a b : Val) : Except Err Val :=
   | .ge, .chr x, .chr y => .ok (boolVal ((chrInt y).sle (chrInt x)))
   | op, x, y => typeErr (reprStr op) x y
 
-/-- `ScriptVariable::minus` on an integer (other kinds go through `longValue()`; not in the fragment) -/
+/-! ### numeric reading of a string (`longValue()` / `intValue()` = `strtoll(s, nullptr, 10)`)
+
+A `String` of this model stands for a byte string, one `Char` below 256 per byte (`chrToString`,
+`indexVal` and `unSize` all read it that way). -/
+
+def strBytes (s : String) : List UInt8 := s.toList.map fun c => c.toNat.toUInt8
+
+def isSpaceB (c : UInt8) : Bool := c == 32 || (9 ≤ c && c ≤ 13)
+def isDigitB (c : UInt8) : Bool := 48 ≤ c && c ≤ 57
+def digitsNat (ds : List UInt8) : Nat := ds.foldl (fun acc c => acc * 10 + (c.toNat - 48)) 0
+
+/-- `strtoll(s, nullptr, 10)`: the C string (up to the first NUL), white space, optional sign, decimal
+    digits as far as they go (none: 0), saturating at `INT64_MIN` / `INT64_MAX` -/
+def strToLong (s : String) : BitVec 64 :=
+  let b := ((strBytes s).takeWhile (· != 0)).dropWhile isSpaceB
+  let (neg, b) := match b with
+    | 45 :: t => (true, t)
+    | 43 :: t => (false, t)
+    | _ => (false, b)
+  let n := digitsNat (b.takeWhile isDigitB)
+  if neg then
+    if n ≥ 2 ^ 63 then BitVec.ofNat 64 (2 ^ 63) else BitVec.ofInt 64 (-(n : Int))
+  else
+    if n ≥ 2 ^ 63 then BitVec.ofNat 64 (2 ^ 63 - 1) else BitVec.ofNat 64 n
+
+/-- `intValue()` of a string: the low 32 bits of `strtoll`, as an unsigned number -/
+def strToUInt (s : String) : BitVec 32 := (strToLong s).truncate 32
+
+/-- `ScriptVariable::minus`: an integer is negated, a string goes through `longValue()`
+    (`-"5"` is `-5`, `-"abc"` is `0`); NIL, chars and arrays cannot be cast -/
 def unNeg : Val → Except Err Val
   | .int x => .ok (.int (-x))
+  | .str s => .ok (.int (-(strToLong s)))
   | v => .error (.type ("neg " ++ typeName v))
 
-/-- `ScriptVariable::complement` on an integer -/
+/-- `ScriptVariable::complement`: an integer is complemented on 64 bits, a string goes through
+    `intValue()` (`uint32_t`): `~"5"` is `4294967290` -/
 def unCompl : Val → Except Err Val
   | .int x => .ok (.int (~~~x))
+  | .str s => .ok (.int ((~~~(strToUInt s)).zeroExtend 64))
   | v => .error (.type ("~ " ++ typeName v))
 
-/-- `operator++(int)` / `operator--(int)`: NIL stays NIL, integers wrap -/
+/-- `operator++(int)` / `operator--(int)`: NIL stays NIL, integers wrap on 64 bits, a string becomes
+    `setIntValue(intValue() ± 1)` (32 bits, unsigned: `"0"--` is `4294967295`) -/
 def unIncr (d : BitVec 64) : Val → Except Err Val
   | .nil => .ok .nil
   | .int x => .ok (.int (x + d))
+  | .str s => .ok (.int ((strToUInt s + d.truncate 32).zeroExtend 64))
   | v => .error (.type ("++ " ++ typeName v))
 
 /-- `OP_UN_SIZE` (`ScriptVariable::size`): `-1` for NIL, length of a string, entries of an array, else 1 -/
@@ -198,11 +232,14 @@ def indexVal (heap : Heap) (a i : Val) : Except Err Val :=
   match a with
   | .nil => .ok .nil
   | .str s =>
+      -- `index.longValue()`: an integer, or a string read by `strtoll` (`"abc"["1"]` is `'b'`)
+      let charAt (n : BitVec 64) : Except Err Val :=
+        if n.toNat < s.length then
+          .ok (.chr (UInt8.ofNat ((s.toList.getD n.toNat 'x').toNat)))
+        else .error (.index "String")
       match i with
-      | .int n =>
-          if n.toNat < s.length then
-            .ok (.chr (UInt8.ofNat ((s.toList.getD n.toNat 'x').toNat)))
-          else .error (.index "String")
+      | .int n => charAt n
+      | .str t => charAt (strToLong t)
       | _ => .error (.type "string index")
   | .arr h => do
       let k ← i.toKey
